@@ -88,7 +88,7 @@ Definition max_chain_signature_checks : nat := 100%nat.
 
 (* The mutable state shared by all (transitive) invocations of one top-level buildChains:
    *sigChecks, the candidate cache (keyed by certificate pointer = pool slot = id), and a
-   model-only flag recording that the recursion fuel ran out (never set: ChainFuel.v). *)
+   model-only flag recording that the recursion fuel ran out (never set: see the fuel lemmas in ChainEndpoint.v). *)
 Record bstate := mkSt { s_checks : nat; s_cache : list (N * list chain); s_oof : bool }.
 Definition st0 : bstate := mkSt 0%nat [] false.
 Definition bump (s : bstate) : bstate := mkSt (S (s_checks s)) (s_cache s) (s_oof s).
